@@ -139,7 +139,9 @@ def run_case(case, ctx):
                 if kind == "cut":
                     padding_only = last_data is not None and len(data) >= last_data
                 else:
-                    padding_only = common.reference(case, data)["status"] in ("ok", "noncanonical")
+                    r2 = common.reference(case, data)
+                    # every data-carrying byte is there, and some trailing/inner padding really is missing
+                    padding_only = r2["status"] in ("ok", "noncanonical") and bool(r2.get("padding_beyond_input"))
                 if padding_only:
                     ctx.count(f"outcome:{kind}:eof-on-missing-padding-tolerated")
                     continue
